@@ -1,87 +1,474 @@
 """C46 - mitmweb requires authentication and blocks cross-site state changes.
 
-Decided from the source of tools/web/app.py, webaddons.py and master.py:
-  R46.1 registry + hierarchy: every row of the ``handlers`` route table and every class deriving from a tornado
-        handler is a proper subclass of AuthRequestHandler; AuthRequestHandler.__init_subclass__ installs
-        ``_require_auth(fn)`` for every implemented member of SUPPORTED_METHODS (path enumeration of the loop
-        body); no subclass defines __init_subclass__ / get_current_user / current_user / _require_auth / _execute,
-        and no verb is re-assigned after class creation; the route table is the only handler registration.
-  R46.2 ``_require_auth.wrapper`` (all paths): ``fn`` runs only after ``self.current_user`` or
-        ``settings['is_valid_password'](..)`` was truthy; every other path sets status 403 and never reaches ``fn``;
-        get_current_user compares a *signed* cookie with a non-empty constant, the cookie secret is random;
-        ``is_valid_password`` is WebAuth.is_valid_password, which answers True only through a comparison of the
-        supplied with the configured password (compare_digest / == / argon2 verify); the configured password can
-        never be the empty string (the wrapper's default for "no credentials"); auth_fail overrides do not touch
-        view / master / flow.
-  R46.3 Application(...) passes xsrf_cookies=True and nothing rewrites that setting; no handler overrides
-        check_xsrf_cookie; RequestHandler.prepare raises for every non-safe method whose Sec-Fetch-Site is
-        same-site / cross-site (decision table, evaluated on the AST); every routed handler that implements a
-        non-safe verb resolves ``prepare`` to RequestHandler.prepare.
+Decided by *interpreting* the source of tools/web/app.py and webaddons.py (mitmlint.pyint, nothing imported or run) in
+concrete request worlds against a reference written from the property text; master.py is read for the registration.
+The interpreter follows helpers, local aliases, `match`, inverted branches, module constants ... by itself, and every
+anchor is found by its role (what tornado / the addon manager would call), not by its name:
+
+  application  the class of app.py deriving from tornado.web.Application; its __init__ is interpreted with a scripted
+               master (addons.get(<name>) instantiates the webaddons class of that name, which master.py must register
+               exactly once); the arguments of the tornado super().__init__ call are the route table and the settings.
+  hook         for a handler class C the first __init_subclass__ among C's proper ancestors (what Python runs when C is
+               created); it is interpreted on a scripted class object whose implemented verbs are recording markers.
+  R46.1 registry + wrapping: every routed class and every class deriving from a tornado handler that implements a verb
+        has such a hook; after the hook every implemented verb of the class is bound to repository code (not to the raw
+        verb) and, called in request worlds without valid credentials, never reaches the verb; no class binds tornado's
+        current_user / _current_user / _execute; no verb / auth member is re-bound after class creation outside the
+        functions the hooks run; the route table is the only handler registration and is not mutated.
+  R46.2 the installed wrapper, full world matrix (4 password configurations x 10 Authorization headers x 5 token
+        arguments x 3 cookie jars, per verb): without a valid credential (signed session cookie issued by a login /
+        configured password or token) the verb is not reached, no session cookie is issued, no proxy state
+        (application.master ...) is touched - also not by auth_fail overrides - and the run ends with status 403 (or an
+        exception); unsigned cookies are attacker controlled (they compare equal to anything).  The settings predicate
+        ``is_valid_password`` (whatever Application hands to the handlers) is tabulated for every configuration and
+        re-configuration (default token, option unset, plaintext, argon2 hash; revocation after a change): it is truthy
+        only for the configured secret - never for "", a wrong / truncated / extended value, the argon2 hash itself, a hash
+        of it, or a revoked password.  cookie_secret comes from a random source of >= 16 bytes.
+  R46.3 the settings carry xsrf_cookies=True and nothing rewrites them; no handler overrides check_xsrf_cookie; for
+        every routed class implementing a non-safe verb, ``prepare`` (resolved along the MRO, interpreted) raises for every
+        non-safe method x Sec-Fetch-Site in (cross-site, same-site); a same-origin POST passes (control).
 NOT decided: tornado's own dispatch (verb lookup by lower-cased method name, xsrf check before prepare, 405 for
 unimplemented verbs, WebSocket upgrade only through ``get``), the static file route tornado adds for ``static_path``
-(serves the bundled UI assets, no flow data), the HTTP status actually produced by the exception raised in
-``prepare``.
+(serves the bundled UI assets, no flow data), the HTTP status actually produced by an exception.
 """
 
 from __future__ import annotations
 
 import ast
+import hashlib
+import hmac
+import http
+import posixpath
 import re
 
 from ..core import AnalysisError
 from ..core import norm
 from ..model import attr_chain
 from ..model import call_name
-from ..model import eval_order
 from ..model import last_attr
-from ..model import stmts_of
+from ..model import qual_of
 from ..model import walk_in_order
-from ..paths import C
-from ..paths import Engine
-from ..paths import GenericSpec
-from ..paths import is_const
-from ..paths import State
-from ..paths import traces_of
-from ..paths import UNKNOWN
+from ..pyint import ClassRef
+from ..pyint import DictRec
+from ..pyint import Func
+from ..pyint import Interp
+from ..pyint import NullLog
+from ..pyint import Raised
+from ..pyint import Rec
 from ..selftest import Mutant
 from ._helpers_F import attribute_stores
 from ._helpers_F import class_members
-from ._helpers_F import has_star_kwargs
-from ._helpers_F import kwarg
-from ._helpers_F import local_assignments
-from ._helpers_F import own_nodes
-from ._helpers_F import params_of
 
 PROP = "C46"
 REG = {
     "strength": "strong",
-    "technique": "route-table / class-hierarchy registry check, path enumeration of the auth wrapper and of __init_subclass__, "
-    "decision table of RequestHandler.prepare, settings dataflow",
-    "claim": "every routed mitmweb handler (24 routes, 26 handler classes) is a proper subclass of AuthRequestHandler whose "
-    "__init_subclass__ wraps every implemented HTTP verb with _require_auth; the wrapper reaches the verb only after a valid "
-    "signed session cookie or a password accepted by WebAuth.is_valid_password (never the empty string) and answers 403 "
-    "otherwise; xsrf_cookies is on, check_xsrf_cookie is never overridden, and every handler with a non-safe verb runs the "
-    "Sec-Fetch-Site gate, which rejects same-site and cross-site for every non-safe method.",
+    "technique": "AST interpretation (pyint) of Application.__init__, the __init_subclass__ hooks, the installed auth wrapper, "
+    "get_current_user / auth_fail / prepare and the password predicate in scripted tornado request worlds, compared with a "
+    "reference written from the property text; route-table / class-hierarchy registry check; settings dataflow",
+    "claim": "every routed mitmweb handler (24 routes, 26 handler classes) gets every implemented HTTP verb replaced, by the "
+    "__init_subclass__ hook of an ancestor, with a wrapper that reaches the verb only with a valid signed session cookie or "
+    "a password accepted by the configured predicate (WebAuth.is_valid_password: truthy only for the configured secret, never "
+    "the empty string, also after re-configuration) and otherwise answers 403 without touching proxy state; xsrf_cookies is "
+    "on, check_xsrf_cookie is never overridden, and every handler with a non-safe verb runs a prepare() that rejects "
+    "same-site and cross-site for every non-safe method.",
     "note": "Trusted: tornado dispatch semantics (verb lookup via getattr(self, method.lower()), SUPPORTED_METHODS, xsrf check "
-    "for non GET/HEAD/OPTIONS before prepare(), current_user caching get_current_user(), WebSocket upgrade in get()); the "
+    "for non GET/HEAD/OPTIONS before prepare(), current_user caching get_current_user(), get_signed_cookie returning only "
+    "values signed with cookie_secret, WebSocket upgrade in get()); hmac / hashlib / argon2 / secrets semantics (modelled); the "
     "static asset route is outside the claim.",
 }
 
 APP = "mitmproxy/tools/web/app.py"
 WA = "mitmproxy/tools/web/webaddons.py"
 MASTER = "mitmproxy/tools/web/master.py"
-BASE = "AuthRequestHandler"
-GATE = "RequestHandler"  # the class whose prepare() implements the Sec-Fetch-Site gate
-VERBS = ("get", "head", "post", "delete", "patch", "put", "options")
+METHODS = ("GET", "HEAD", "POST", "DELETE", "PATCH", "PUT", "OPTIONS")  # tornado.web.RequestHandler.SUPPORTED_METHODS
+VERBS = tuple(m.lower() for m in METHODS)
 UNSAFE = ("post", "delete", "patch", "put")
-AUTH_MEMBERS = ("__init_subclass__", "get_current_user", "current_user", "_current_user", "_require_auth", "_execute")
+TORNADO_AUTH_MEMBERS = ("current_user", "_current_user", "_execute")  # names fixed by tornado's contract
 NON_HANDLER_TORNADO = {"HTTPError", "GZipContentEncoding", "Application"}
 SENSITIVE_SETTINGS = {"xsrf_cookies", "is_valid_password", "auth_cookie_name", "cookie_secret"}
-RANDOM_SOURCES = {"secrets.token_bytes", "secrets.token_hex", "secrets.token_urlsafe", "os.urandom"}
+LIST_MUTATORS = {"append", "extend", "insert", "remove", "pop", "clear", "sort", "reverse", "__setitem__", "__delitem__", "__iadd__"}
 
 
 # ---------------------------------------------------------------------------------------------------
-# model of the handler hierarchy
+# library models handed to the interpreter
+
+
+def _native(f):
+    f._pyint_accepts_abstract = True
+    return f
+
+
+class _NS:
+    _pyint_accepts_abstract = True
+
+    def __init__(self, **kw):
+        self.__dict__.update(kw)
+
+
+@_native
+def _unimplemented(*a, **k):
+    raise Raised("HTTPError", "405")
+
+
+TORNADO = _NS(
+    web=_NS(RequestHandler=_NS(_unimplemented_method=_unimplemented, SUPPORTED_METHODS=METHODS)),
+    websocket=_NS(WebSocketHandler=_NS(_unimplemented_method=_unimplemented, SUPPORTED_METHODS=METHODS)),
+)
+
+
+class _Secrets:
+    """secrets / os.urandom: deterministic stand-ins, remembered so that rules can tell random values from source constants"""
+
+    _pyint_accepts_abstract = True
+
+    def __init__(self):
+        self.tokens: list = []
+        self.blobs: list = []
+
+    def _byte(self):
+        return (0xA5 + 7 * (len(self.tokens) + len(self.blobs))) & 0xFF
+
+    def token_hex(self, nbytes=None):
+        t = f"{self._byte():02x}" * (32 if nbytes is None else nbytes)
+        self.tokens.append(t)
+        return t
+
+    def token_urlsafe(self, nbytes=None):
+        n = 32 if nbytes is None else nbytes
+        t = (f"{self._byte():02x}Z-" * n)[: (n * 4 + 2) // 3]
+        self.tokens.append(t)
+        return t
+
+    def token_bytes(self, nbytes=None):
+        b = bytes([self._byte()]) * (32 if nbytes is None else nbytes)
+        self.blobs.append(b)
+        return b
+
+    def compare_digest(self, a, b):
+        return hmac.compare_digest(a, b)
+
+    def is_random(self, v) -> bool:
+        return any(v is x or (type(v) is type(x) and v == x) for x in self.tokens + self.blobs)
+
+
+class _Hasher:
+    _pyint_accepts_abstract = True
+
+    def __init__(self, lib):
+        self.lib = lib
+
+    def hash(self, password, **kw):
+        return self.lib.make(password)
+
+    def verify(self, hash, password):  # noqa: A002 (argon2's parameter name)
+        for v in (hash, password):
+            if not isinstance(v, (str, bytes)):
+                raise Raised("TypeError", "argon2 verify")
+        if hash not in self.lib.known:
+            raise Raised("InvalidHashError")
+        if self.lib.known[hash] == password:
+            return True
+        raise Raised("VerifyMismatchError")
+
+    def check_needs_rehash(self, hash):  # noqa: A002
+        return False
+
+
+class _Argon2:
+    """argon2-cffi: a hash verifies exactly its registered pre-image, everything else raises like the library does"""
+
+    _pyint_accepts_abstract = True
+
+    def __init__(self):
+        self.known: dict = {}
+        self.exceptions = _NS()
+
+    def make(self, password):
+        h = "$argon2id$v=19$m=65536,t=3,p=4$" + hashlib.sha256(str(password).encode()).hexdigest()[:22] + "$" + hashlib.md5(str(password).encode()).hexdigest()
+        self.known[h] = password
+        return h
+
+    def PasswordHasher(self, *a, **k):  # noqa: N802
+        return _Hasher(self)
+
+    def extract_parameters(self, hash):  # noqa: A002
+        if hash not in self.known:
+            raise Raised("InvalidHashError")
+        return _NS(type="id", version=19)
+
+
+EXC_PARENT = {
+    "VerifyMismatchError": "VerificationError",
+    "VerificationError": "Argon2Error",
+    "HashingError": "Argon2Error",
+    "Argon2Error": "Exception",
+    "InvalidHashError": "ValueError",
+    "InvalidHash": "ValueError",
+    "MissingArgumentError": "HTTPError",
+    "HTTPError": "Exception",
+    "Finish": "Exception",
+}
+
+
+class _Forged:
+    """an attacker-chosen (unsigned) cookie value: worst case, it compares equal to whatever the code expects"""
+
+    _pyint_accepts_abstract = True
+
+    def __eq__(self, other):
+        return True
+
+    def __ne__(self, other):
+        return False
+
+    def __hash__(self):
+        return 0
+
+    @property
+    def value(self):
+        return self
+
+    def encode(self, *a):
+        return self
+
+    decode = strip = encode
+
+
+class _ForgedJar:
+    _pyint_accepts_abstract = True
+
+    def get(self, name, default=None):
+        return _Forged()
+
+    def __getitem__(self, name):
+        return _Forged()
+
+    def __contains__(self, name):
+        return True
+
+
+# ---------------------------------------------------------------------------------------------------
+# request worlds
+
+
+class World:
+    """one request: verb, Authorization header, token argument, cookie jars, Sec-Fetch-Site; collects the handler's effects"""
+
+    def __init__(self, verb="get", header=None, token=None, signed=None, forged=False, site=None, valid=False, label=""):
+        self.verb = verb
+        self.headers = {}
+        if header is not None:
+            self.headers["Authorization"] = header
+        if site is not None:
+            self.headers["Sec-Fetch-Site"] = site
+        self.args = {} if token is None else {"token": token}
+        self.signed = dict(signed or {})
+        self.forged = forged
+        self.valid = valid  # does the request carry a valid credential (reference side)
+        self.label = label
+        self.events: list = []
+
+    def status(self):
+        codes = [e[1] for e in self.events if e[0] == "status"]
+        return codes[-1] if codes else None
+
+    def has(self, kind):
+        return [e for e in self.events if e[0] == kind]
+
+
+def _state(name):
+    return Rec("$state", _name=name)
+
+
+class WebInterp(Interp):
+    """pyint with tornado's handler object, the application / master objects and the proxy state as scripted records"""
+
+    def __init__(self, model):
+        self.secrets = _Secrets()
+        self.argon2 = _Argon2()
+        os_ns = _NS(
+            path=_NS(join=posixpath.join, dirname=posixpath.dirname, basename=posixpath.basename, abspath=posixpath.normpath,
+                     realpath=posixpath.normpath, normpath=posixpath.normpath, splitext=posixpath.splitext),
+            urandom=self.secrets.token_bytes, sep="/",
+        )
+        super().__init__(
+            model,
+            trusted_modules={
+                "tornado": TORNADO, "secrets": self.secrets, "argon2": self.argon2, "hashlib": hashlib, "http": _NS(HTTPStatus=http.HTTPStatus), "logging": NullLog(), "os": os_ns,
+                "hmac": _NS(compare_digest=hmac.compare_digest, digest=hmac.digest, new=hmac.new),
+            },
+            max_steps=10**9,
+        )
+        self.world: World | None = None
+        self.visited: set = set()
+        self.visited_in: dict = {}
+        self.options = Rec("$options", web_password="", web_port=8081, web_host="127.0.0.1", web_debug=False, web_open_browser=False)
+        self.overrides[(WA, "ctx")] = Rec("$ctx", options=self.options)
+        self.overrides[(APP, "__file__")] = "/mitmweb/mitmproxy/tools/web/app.py"
+        self.overrides[(WA, "__file__")] = "/mitmweb/mitmproxy/tools/web/webaddons.py"
+        self._binds_cache: dict = {}
+
+    # -- semantics hooks -------------------------------------------------------------------------
+    def call_func(self, f, args, kwargs, depth):
+        self.visited.add(f.node)
+        self.visited_in[f.node] = f.mod.rel
+        return super().call_func(f, args, kwargs, depth)
+
+    def exc_isa(self, name, handler, mod):
+        n = name
+        while n in EXC_PARENT:
+            if n == handler:
+                return True
+            n = EXC_PARENT[n]
+        return super().exc_isa(n, handler, mod)
+
+    def iterate(self, v, node):
+        if isinstance(v, Rec) and v._cls == "$state":
+            self._touch(v, "__iter__")
+            return []
+        return super().iterate(v, node)
+
+    def binds(self, impl, attr) -> bool:
+        k = (impl, attr)
+        if k not in self._binds_cache:
+            self._binds_cache[k] = any(attr in class_members(c, strict=False) for _, c in self.model.mro(*impl))
+        return self._binds_cache[k]
+
+    def _touch(self, base, attr):
+        name = f"{base._name}.{attr}"
+        if self.world is not None:
+            self.world.events.append(("state", name))
+        if attr == "__call__":
+            return _native(lambda *a, **k: _state(name[:-9] + "()"))
+        return _state(name)
+
+    def getattr(self, base, attr, node, depth):
+        if isinstance(base, Rec) and attr not in base.__dict__:
+            kind = base._cls
+            if kind == "$state":
+                return self._touch(base, attr)
+            if kind == "$app":
+                return self._touch(base, attr)  # application.master & co: the proxy state
+            if kind == "$master":
+                return _state(f"master.{attr}")
+            if kind in ("$handler", "$hclass") and not self.binds(base._impl, attr):
+                if attr == "current_user" and kind == "$handler":
+                    return self._current_user(base, depth)
+                stubs = base.__dict__.get("_super_stubs", {})
+                if attr in stubs:
+                    return stubs[attr]
+                raise AnalysisError(f"tornado handler member '{attr}' (used at {norm(node)[:60] if node is not None else '?'}) is not part of the modelled request world")
+        return super().getattr(base, attr, node, depth)
+
+    def _current_user(self, h, depth):
+        """tornado.web.RequestHandler.current_user: get_current_user() once per request"""
+        if "_current_user" not in h.__dict__:
+            r = self.model.method(h._impl[0], h._impl[1], "get_current_user")
+            v = None if r is None else self.apply(Func(r[0], r[1], bound=h), [], {}, depth)
+            object.__setattr__(h, "_current_user", v)
+        return h.__dict__["_current_user"]
+
+    # -- scripted objects ------------------------------------------------------------------------
+    def handler(self, q, world, settings):
+        ev = world.events.append
+        missing = object()
+
+        def set_status(code, reason=None):
+            ev(("status", code))
+
+        def send_error(status_code=500, **kw):
+            ev(("status", status_code))
+            ev(("respond", "send_error"))
+
+        def get_argument(name, default=missing, strip=True):
+            if name in world.args:
+                v = world.args[name]
+                return v.strip() if strip and isinstance(v, str) else v
+            if default is missing:
+                raise Raised("MissingArgumentError", str(name))
+            return default
+
+        def get_arguments(name, strip=True):
+            return [get_argument(name, strip=strip)] if name in world.args else []
+
+        def get_signed_cookie(name, value=None, max_age_days=31, min_version=None):
+            if value is not None:
+                raise AnalysisError("get_signed_cookie(name, value=...) is not modelled")
+            v = world.signed.get(name)
+            return v.encode() if isinstance(v, str) else v
+
+        def get_cookie(name, default=None):
+            return _Forged() if world.forged else default
+
+        def set_signed_cookie(name, value, expires_days=30, version=None, **kw):
+            ev(("issue", name, value))
+
+        def set_cookie(name, value, *a, **kw):
+            ev(("set-cookie", name))
+
+        def respond(kind):
+            return _native(lambda *a, **k: ev(("respond", kind)))
+
+        stubs = {
+            "set_status": set_status, "send_error": send_error, "get_argument": get_argument, "get_query_argument": get_argument,
+            "get_body_argument": get_argument, "get_arguments": get_arguments, "get_query_arguments": get_arguments,
+            "get_body_arguments": get_arguments, "get_signed_cookie": get_signed_cookie, "get_secure_cookie": get_signed_cookie,
+            "get_cookie": get_cookie, "set_signed_cookie": set_signed_cookie, "set_secure_cookie": set_signed_cookie, "set_cookie": set_cookie,
+            "get_status": lambda: world.status() or 200,
+        }
+        for k, f in list(stubs.items()):
+            stubs[k] = _native(f)
+        for k in ("render", "render_string", "write", "finish", "flush", "set_header", "add_header", "clear_header", "redirect", "clear_cookie",
+                  "clear_all_cookies", "clear", "xsrf_form_html", "set_default_headers", "initialize", "on_finish", "check_xsrf_cookie", "write_error"):
+            stubs[k] = respond(k)
+        stubs.update(xsrf_token=b"2|xsrf", path_args=(), path_kwargs={}, _finished=False, _headers_written=False, _unimplemented_method=_unimplemented)
+        request = Rec(
+            "$request", method=world.verb.upper(), path="/", uri="/", query="", body=b"", protocol="http", host="127.0.0.1:8081", remote_ip="127.0.0.1",
+            headers=DictRec("$headers", world.headers, case_insensitive=True), cookies=_ForgedJar() if world.forged else {},
+            arguments={k: [str(v).encode()] for k, v in world.args.items()}, files={},
+        )
+        object.__setattr__(request, "query_arguments", request.arguments)
+        object.__setattr__(request, "full_url", _native(lambda: "http://127.0.0.1:8081/"))
+        object.__setattr__(request, "version", "HTTP/1.1")
+        object.__setattr__(request, "host_name", "127.0.0.1")
+        object.__setattr__(request, "body_arguments", {})
+        stubs["cookies"] = request.cookies
+        app = Rec("$app", _name="application", settings=settings)
+        return Rec("$handler", _impl=(APP, q), _name=f"<{q} request>", request=request, application=app, settings=settings, _super_stubs=stubs)
+
+    def run(self, world, f, args):
+        """call ``f`` in ``world``: ('return', value) | ('raise', name)"""
+        self.world, self.steps = world, 0
+        try:
+            return ("return", self.apply(f, list(args), {}, 0))
+        except Raised as r:
+            return ("raise", r.name)
+        finally:
+            self.world = None
+
+
+# ---------------------------------------------------------------------------------------------------
+# application, route table, settings (by interpretation of Application.__init__)
+
+
+RELEVANT_MEMBERS = set(VERBS) | set(TORNADO_AUTH_MEMBERS) | {"prepare", "SUPPORTED_METHODS", "__init_subclass__", "get_current_user", "auth_fail", "check_xsrf_cookie"}
+
+
+def members(cls: ast.ClassDef) -> dict:
+    """name -> node of the members bound directly in the class body.  Control flow in a class body (if TYPE_CHECKING: ...) is
+    transparent as long as it binds none of the members the rules look at."""
+    out = class_members(cls, strict=False)
+    for st in cls.body:
+        if isinstance(st, (ast.FunctionDef, ast.AsyncFunctionDef, ast.ClassDef, ast.Assign, ast.AnnAssign, ast.Expr, ast.Pass)):
+            if isinstance(st, ast.Assign) and not all(isinstance(tt, ast.Name) for t in st.targets for tt in (t.elts if isinstance(t, (ast.Tuple, ast.List)) else [t])):
+                raise AnalysisError(f"class {cls.name}: unmodelled class-body assignment {norm(st)}")
+            continue
+        bound = {n.id for n in ast.walk(st) if isinstance(n, ast.Name) and isinstance(n.ctx, (ast.Store, ast.Del))}
+        bound |= {n.name for n in ast.walk(st) if isinstance(n, (ast.FunctionDef, ast.AsyncFunctionDef, ast.ClassDef))}
+        bound |= {a.asname or a.name.split(".")[0] for n in ast.walk(st) if isinstance(n, (ast.Import, ast.ImportFrom)) for a in n.names}
+        if bound & RELEVANT_MEMBERS:
+            raise AnalysisError(f"class {cls.name}: {', '.join(sorted(bound & RELEVANT_MEMBERS))} bound under control flow in the class body (not modelled)")
+    return out
 
 
 def handler_classes(ctx):
@@ -91,8 +478,8 @@ def handler_classes(ctx):
     for q, d in m.defs().items():
         if not isinstance(d, ast.ClassDef):
             continue
-        if any(k.arg == "metaclass" for k in d.keywords):
-            raise AnalysisError(f"{APP}::{q} uses a metaclass; class creation is not modelled")
+        if d.keywords:
+            raise AnalysisError(f"{APP}::{q} passes class keywords ({norm(d.keywords[0])}); class creation with keywords is not modelled")
         names = ctx.model.base_names(APP, q)
         ext = [n for n in names if n.startswith("tornado.")]
         if any(n.endswith("Handler") for n in ext):
@@ -104,65 +491,108 @@ def handler_classes(ctx):
     return out
 
 
-def mro_names(ctx, q):
-    return [c.name for _, c in ctx.model.mro(APP, q)]
+class Addons:
+    """master.addons for Application.__init__: get(<name>) is the webaddons class of that (lower-cased) name, registered once in master.py"""
+
+    _pyint_accepts_abstract = True
+
+    def __init__(self, ip, ctx):
+        self.ip, self.ctx, self.made = ip, ctx, {}
+
+    def get(self, name):
+        if name in self.made:
+            return self.made[name]
+        model = self.ctx.model
+        wm, mt = model.module(WA), model.module(MASTER)
+        cands = [d for q, d in wm.defs().items() if isinstance(d, ast.ClassDef) and q.lower() == name]
+        self.ctx.require(len(cands) == 1, f"{WA}: no (unique) class whose lower-cased name is {name!r} (addons.get in Application.__init__)")
+        d = cands[0]
+        self.ctx.require("name" not in class_members(d, strict=False), f"{d.name} defines a custom addon name")
+        added = []
+        for c in walk_in_order(mt.tree):
+            if isinstance(c, ast.Call):
+                r = model.resolve_name(mt, c.func)
+                if r is not None and r[1] is d:
+                    added.append(c)
+        self.ctx.require(len(added) == 1, f"{MASTER}: the web master does not register {WA}::{d.name}() exactly once")
+        rec = self.ip.instantiate(ClassRef(wm, d), [], {}, 0, "master.addons.get")
+        self.made[name] = rec
+        return rec
 
 
-def resolve_member(ctx, q, name):
-    """(class name, node) of the first class along the (repo-resolved) MRO defining ``name``."""
-    for _, c in ctx.model.mro(APP, q):
-        mem = class_members(c)
-        if name in mem:
-            return c.name, mem[name]
-    return None, None
+class AppModel:
+    def __init__(self, ip, q, node, routes, settings, transforms):
+        self.ip, self.q, self.node, self.routes, self.settings, self.transforms = ip, q, node, routes, settings, transforms
 
 
-# ---------------------------------------------------------------------------------------------------
-# R46.1
+def application_class(ctx):
+    m = ctx.model.module(APP)
+    apps = [q for q, d in m.defs().items() if isinstance(d, ast.ClassDef) and any(n.startswith("tornado.") and n.endswith(".Application") for n in ctx.model.base_names(APP, q))]
+    ctx.require(len(apps) == 1, f"{APP}: expected exactly one tornado Application subclass, found {apps}")
+    return apps[0], m.get(apps[0])
 
 
-def check_registry(ctx, classes):
+def build_app(ctx, ip) -> AppModel:
+    """Interpret <Application>.__init__ the way master.py calls it; the arguments of the tornado base constructor are the model."""
     model = ctx.model
-    m = model.module(APP)
-    vals = m.assigns("handlers")
-    ctx.require(len(vals) == 1, f"{APP}: expected exactly one module-level assignment to 'handlers', found {len(vals)}")
-    table = vals[0]
-    ctx.require(isinstance(table, ast.List), f"{APP}::handlers is not a list literal any more: {norm(table)}")
-    routed = []
-    for row in table.elts:
-        ok_shape = (
-            isinstance(row, ast.Tuple) and len(row.elts) >= 2 and isinstance(row.elts[0], ast.Constant)
-            and isinstance(row.elts[0].value, str) and isinstance(row.elts[1], ast.Name)
-        )
-        ctx.require(ok_shape, f"{APP}::handlers row of unmodelled shape: {norm(row)}")
-        pattern, target = row.elts[0].value, row.elts[1].id
-        d = m.get(target)
-        ctx.require(isinstance(d, ast.ClassDef), f"{APP}::handlers row {pattern!r} targets {target}, which is not a class of app.py")
-        anc = mro_names(ctx, target)
-        ok = BASE in anc[1:]
-        ctx.check(ok, "R46.1", (APP, "handlers", row), f"route {pattern} -> {target}",
-                  f"routed handler {target} is not a proper subclass of {BASE}: its HTTP verbs are never wrapped with _require_auth",
-                  desc=f"route {pattern} -> {target} (MRO {' > '.join(anc)})")
-        routed.append((pattern, target, row))
-    # 'handlers' is used exactly once: as the handlers= argument of Application
-    uses = [n for n in walk_in_order(m.tree) if isinstance(n, ast.Name) and n.id == "handlers" and isinstance(n.ctx, ast.Load)]
-    init = ctx.func(APP, "Application.__init__")
-    sup = [c for c in walk_in_order(init) if isinstance(c, ast.Call) and norm(c.func) == "super().__init__"]
-    ctx.require(len(sup) == 1, "Application.__init__ no longer makes exactly one super().__init__ call")
-    app_call = sup[0]
-    ctx.require(not has_star_kwargs(app_call) and not app_call.args, "Application super().__init__ uses positional / ** arguments (not modelled)")
-    h = kwarg(app_call, "handlers")
-    ctx.require(isinstance(h, ast.Name) and h.id == "handlers", "Application does not pass handlers=handlers any more")
-    ctx.require(len(uses) == 1 and uses[0] is h, f"{APP}: the route table 'handlers' is read in {len(uses)} places (only the Application argument is modelled)")
-    for kw in ("default_handler_class", "static_handler_class"):
-        ctx.require(kwarg(app_call, kw) is None, f"Application passes {kw}= (an extra handler outside the route table; not modelled)")
-    # the master serves exactly this application
+    q, node = application_class(ctx)
     mt = model.module(MASTER)
-    mk = [c for c in walk_in_order(mt.tree) if isinstance(c, ast.Call) and call_name(c) == "app.Application"]
+    made = [c for c in walk_in_order(mt.tree) if isinstance(c, ast.Call) and (model.resolve_name(mt, c.func) or (None, None))[1] is node]
+    ctx.require(len(made) == 1, f"{MASTER}: the web master no longer builds exactly one {q}")
+    master = Rec("$master", addons=Addons(ip, ctx), options=ip.options)
+
+    def arg(a):
+        return master if isinstance(a, ast.Name) and a.id == "self" else False  # (master, debug flag)
+
+    ctx.require(not any(isinstance(a, ast.Starred) for a in made[0].args) and all(k.arg for k in made[0].keywords), f"{MASTER}: {norm(made[0])} uses * / ** arguments (not modelled)")
+    args = [arg(a) for a in made[0].args]
+    kwargs = {k.arg: arg(k.value) for k in made[0].keywords}
+    captured: dict = {}
+    app = Rec(q, _impl=(APP, q))
+
+    @_native
+    def tornado_init(handlers=None, default_host=None, transforms=None, **settings):
+        if captured:
+            raise AnalysisError(f"{q}.__init__ calls the tornado constructor twice (not modelled)")
+        captured.update(handlers=handlers, transforms=transforms, settings=settings)
+        object.__setattr__(app, "settings", settings)
+
+    @_native
+    def refuse(*a, **k):
+        raise AnalysisError(f"{q}.__init__ registers handlers outside the route table (add_handlers / add_transform; not modelled)")
+
+    object.__setattr__(app, "_super_stubs", {"__init__": tornado_init, "add_handlers": refuse, "add_transform": refuse})
+    ctx.functions.add(f"{APP}::{q}.__init__")
+    ip.steps = 0
+    try:
+        ip.method(app, "__init__", *args, **kwargs)
+    except Raised as r:
+        raise AnalysisError(f"{q}.__init__ raises {r.name} in the modelled start-up ({r.msg})")
+    ctx.require(captured, f"{q}.__init__ never reaches the tornado Application constructor")
+    routes = []
+    table = captured["handlers"]
+    ctx.require(isinstance(table, (list, tuple)) and table, f"{q}: the handlers argument is not a non-empty route list")
+    for row in table:
+        ok = isinstance(row, (tuple, list)) and len(row) >= 2 and isinstance(row[0], str) and isinstance(row[1], ClassRef) and row[1].mod.rel == APP
+        ctx.require(ok, f"{q}: route table row of unmodelled shape: {row!r}")
+        routes.append((row[0], getattr(row[1].node, "_qual", row[1].node.name)))
+    for kw in ("default_handler_class", "static_handler_class"):
+        ctx.require(kw not in captured["settings"], f"{q} passes {kw}= (an extra handler outside the route table; not modelled)")
+    am = AppModel(ip, q, node, routes, captured["settings"], captured["transforms"])
+    am.constructed_by = set(ip.visited)  # functions whose effect on the settings / route table was interpreted
+    return am
+
+
+def check_registration(ctx, am):
+    """the interpreted application is the one that is served, and the route table is the only registration"""
+    model = ctx.model
+    m, mt = model.module(APP), model.module(MASTER)
     srv = [c for c in walk_in_order(mt.tree) if isinstance(c, ast.Call) and last_attr(c.func) == "HTTPServer"]
-    ctx.require(len(mk) == 1 and len(srv) == 1 and srv[0].args and attr_chain(srv[0].args[0]) == "self.app",
-                f"{MASTER}: WebMaster no longer builds one app.Application and serves it with one HTTPServer(self.app)")
-    # no second registration anywhere in the package
+    ctx.require(len(srv) == 1 and srv[0].args and attr_chain(srv[0].args[0]).startswith("self."), f"{MASTER}: the web master no longer serves one HTTPServer(self.<app>)")
+    served = attr_chain(srv[0].args[0])
+    stores = [st for st, t in attribute_stores(mt.tree, {served.split(".", 1)[1]}) if attr_chain(t) == served]
+    ok = len(stores) == 1 and isinstance(stores[0], ast.Assign) and isinstance(stores[0].value, ast.Call) and (model.resolve_name(mt, stores[0].value.func) or (None, None))[1] is am.node
+    ctx.require(ok, f"{MASTER}: {served} is not bound exactly once to {am.q}(...)")
     pat = re.compile(r"add_handlers|RequestHandler|WebSocketHandler|wildcard_router|RuleRouter")
     for p in sorted((model.repo / "mitmproxy").rglob("*.py")):
         rel = p.relative_to(model.repo).as_posix()
@@ -174,121 +604,447 @@ def check_registry(ctx, classes):
     for c in walk_in_order(m.tree):
         if isinstance(c, ast.Call) and last_attr(c.func) in ("add_handlers", "add_transform", "wildcard_router"):
             raise AnalysisError(f"{APP}: {norm(c)} registers handlers outside the route table (not modelled)")
-    return routed, app_call
+    # module-level names the application class reads (the route table, constants) are never mutated in place
+    feeds = {n.id for n in walk_in_order(am.node) if isinstance(n, ast.Name) and isinstance(n.ctx, ast.Load) and m.assigns(n.id)}
+    grew = True
+    while grew:
+        more = {n.id for f in feeds for v in m.assigns(f) for n in walk_in_order(v) if isinstance(n, ast.Name) and m.assigns(n.id)} - feeds
+        feeds |= more
+        grew = bool(more)
+    for rel, prefixes in ((APP, ("",)), (MASTER, ("app.",))):
+        for n in walk_in_order(model.module(rel).tree):
+            tgt = None
+            if isinstance(n, ast.Call) and isinstance(n.func, ast.Attribute) and n.func.attr in LIST_MUTATORS:
+                tgt = n.func.value
+            elif isinstance(n, ast.Subscript) and isinstance(n.ctx, (ast.Store, ast.Del)):
+                tgt = n.value
+            elif isinstance(n, ast.AugAssign):
+                tgt = n.target
+            name = attr_chain(tgt) if tgt is not None else ""
+            if name and any(name == p + f for p in prefixes for f in feeds):
+                raise AnalysisError(f"{rel}: {norm(n)[:80]} mutates {name}, which feeds the application's route table / settings (not modelled)")
 
 
-def check_hierarchy(ctx, classes):
-    ctx.require(BASE in classes and GATE in classes, f"{APP}: {BASE} / {GATE} vanished")
-    for q, d in classes.items():
-        if q == BASE:
+# ---------------------------------------------------------------------------------------------------
+# password configurations (R46.2, the settings predicate)
+
+GOOD, OLD, WRONG = "correct horse battery", "last year's password", "wrong-password"
+
+
+class Scenario:
+    """a fresh application whose auth addon went through the given web_password (re)configurations (None: never configured)"""
+
+    def __init__(self, ctx, steps, label):
+        self.ctx, self.label, self.steps = ctx, label, steps
+        self.ip = ip = WebInterp(ctx.model)
+        self.hashes = {pw: ip.argon2.make(pw) for pw in (GOOD, OLD)}
+        self.app = build_app(ctx, ip)
+        self.pred = self.app.settings.get("is_valid_password")
+        ctx.require(self.pred is not None, f"{self.app.q} no longer hands is_valid_password to the handlers")
+        self._good = self._unset = object()
+        self.revoked = []
+        value = None
+        for i, (kind, pw) in enumerate(steps):
+            value = None if kind is None else {"unset": "", "plain": pw, "argon2": self.hashes.get(pw)}[kind]
+            if kind is not None:
+                self.configure(value)
+            if i < len(steps) - 1:
+                # life under an earlier configuration: a successful and a failed validation (fills whatever the predicate
+                # remembers between requests); nothing is validated yet under the last configuration (see check_predicate)
+                good = self.find_good(kind, pw)
+                if good is not None:
+                    self.accepts(good)
+                    self.revoked.append(good)
+                self.accepts(WRONG)
+        self.configured = value
+
+    @property
+    def good(self):
+        """the secret the last configuration accepts (None: nothing is accepted); found lazily, because looking for a random token validates it"""
+        if self._good is self._unset:
+            self._good = self.find_good(*self.steps[-1])
+        return self._good
+
+    def configure(self, value):
+        ip = self.ip
+        addon = self.pred.bound if isinstance(self.pred, Func) else None
+        self.ctx.require(isinstance(addon, Rec) and addon._impl is not None and addon._impl[0] == WA,
+                         f"{self.app.q}: is_valid_password is not a method of a webaddons addon; its (re)configuration is not modelled")
+        object.__setattr__(ip.options, "web_password", value)
+        ip.steps = 0
+        try:
+            ip.method(addon, "configure", {"web_password"})
+        except Raised as r:
+            raise AnalysisError(f"{addon._cls}.configure raises {r.name} for web_password={value!r} ({self.label})")
+
+    def accepts(self, candidate) -> bool:
+        ip = self.ip
+        ip.steps = 0
+        try:
+            return ip.truthy(ip.apply(self.pred, [candidate], {}, 0))
+        except Raised:
+            return False
+
+    def find_good(self, kind, pw):
+        if kind in ("plain", "argon2"):
+            return pw
+        for t in reversed(self.ip.secrets.tokens):
+            if self.accepts(t):
+                return t
+        return None
+
+
+SCENARIOS = (
+    ("never configured (start-up token)", ((None, None),)),
+    ("web_password unset (random token)", (("unset", None),)),
+    ("plaintext web_password", (("plain", GOOD),)),
+    ("argon2 web_password", (("argon2", GOOD),)),
+    ("plaintext web_password changed", (("plain", OLD), ("plain", GOOD))),
+    ("argon2 web_password changed", (("argon2", OLD), ("argon2", GOOD))),
+    ("argon2 web_password replaced by plaintext", (("argon2", OLD), ("plain", GOOD))),
+    ("plaintext web_password removed", (("plain", OLD), ("unset", None))),
+)
+
+
+def predicate_site(sc):
+    """(file, qual, node) of the predicate's source for findings"""
+    p = sc.pred
+    if isinstance(p, Func):
+        return p.mod.rel, qual_of(p.node) if not isinstance(p.node, ast.Lambda) else qual_of(p.node) + ".<lambda>", p.node
+    return APP, f"{sc.app.q}.__init__", sc.app.node
+
+
+def check_predicate(ctx, scenarios):
+    """decision table of settings['is_valid_password'] over configurations x candidate passwords"""
+    for sc in scenarios:
+        where = predicate_site(sc)
+        # first the candidates that do not depend on the secret, before anything was validated under the last configuration
+        # (a predicate that remembers earlier verdicts must not keep accepting a revoked password until the next login)
+        cands = [("a revoked password", old) for old in sc.revoked] + [("the empty string", ""), ("a wrong password", WRONG), ("a blank", " ")]
+        if isinstance(sc.configured, str) and sc.configured.startswith("$"):
+            cands.append(("the configured argon2 hash itself", sc.configured))
+            cands.append(("an argon2 hash of the configured hash", sc.ip.argon2.make(sc.configured)))
+        bad = [what for what, cand in cands if sc.accepts(cand)]
+        good = sc.good if sc.good is not None else "no password is accepted"
+        live = sc.good is not None and sc.accepts(sc.good)
+        more = [("a truncated password", good[:-1]), ("an extended password", good + "x"), ("the password in another case", good.swapcase())]
+        more += [("a revoked password", old) for old in sc.revoked]  # ... and again after a login with the new one
+        bad += [what for what, cand in more if cand != sc.good and what not in bad and sc.accepts(cand)]
+        ctx.cells += len(cands) + len(more) + 1
+        for what in bad:
+            ctx.fail("R46.2", where, f"is_valid_password accepts {what} ({sc.label})",
+                     f"the password predicate handed to the handlers answers True for {what} under '{sc.label}': a request without the configured secret is authenticated",
+                     scenario=sc.label, steps=[list(map(str, s)) for s in sc.steps])
+        if not bad:
+            ctx.require(live, f"{where[1]} accepts no password at all under '{sc.label}' (model broken, or nobody can log in)")
+            ctx.ok("R46.2", f"{where[1]} [{sc.label}]: truthy for the configured secret only ({len(cands) + len(more)} other candidates refused)")
+
+
+def check_cookie_secret(ctx, sc):
+    am = sc.app
+    where = (APP, f"{am.q}.__init__", ctx.model.method(APP, am.q, "__init__")[1])
+    ctx.require("cookie_secret" in am.settings, f"{am.q} no longer passes cookie_secret")
+    sec = am.settings["cookie_secret"]
+    if not isinstance(sec, (bytes, str)):
+        raise AnalysisError(f"{am.q}: cookie_secret of unmodelled type {type(sec).__name__}")
+    if not sc.ip.secrets.is_random(sec):
+        ctx.fail("R46.2", where, "cookie_secret is not random", "the cookie signing secret is computed from source constants / options: session cookies can be forged")
+    else:
+        ctx.check(len(sec) >= 16, "R46.2", where, f"cookie_secret has {len(sec)} random bytes", "cookie signing secret shorter than 128 bit",
+                  desc=f"cookie_secret: {len(sec)} bytes from a random source")
+
+
+# ---------------------------------------------------------------------------------------------------
+# hooks and wrappers (R46.1 / R46.2)
+
+
+class Verb:
+    """the original verb of a handler class: calling it is what must not happen without credentials"""
+
+    _pyint_accepts_abstract = True
+
+    def __init__(self, ip, q, verb):
+        self.ip, self.q, self.verb = ip, q, verb
+        self.__name__ = verb
+
+    def __call__(self, *a, **k):
+        if self.ip.world is not None:
+            self.ip.world.events.append(("fn", self.verb))
+        return None
+
+
+def hook_of(ctx, q):
+    """what class creation runs for ``q``: the first __init_subclass__ of a *proper* ancestor"""
+    for m, c in ctx.model.mro(APP, q)[1:]:
+        for st in c.body:
+            if isinstance(st, (ast.FunctionDef, ast.AsyncFunctionDef)) and st.name == "__init_subclass__":
+                return m, c, st
+    return None
+
+
+def implemented_verbs(ctx, q):
+    """verbs bound by a repository class along the MRO; every verb when a tornado base other than web.RequestHandler may bring its own"""
+    names = ctx.model.base_names(APP, q)
+    if any(n.startswith("tornado.") and n != "tornado.web.RequestHandler" for n in names):
+        return list(VERBS), True
+    out = []
+    for _, c in ctx.model.mro(APP, q):
+        mem = members(c)
+        if "SUPPORTED_METHODS" in mem:
+            raise AnalysisError(f"{APP}::{c.name} redefines SUPPORTED_METHODS (not modelled)")
+        out += [v for v in VERBS if v in mem and v not in out]
+    return out, False
+
+
+def create_class(ctx, ip, q, verbs):
+    """run the hook for a scripted class object of ``q``; returns (class record, {verb: original marker})"""
+    hook = hook_of(ctx, q)
+    marks = {v: Verb(ip, q, v) for v in verbs}
+    attrs = {v: marks.get(v, _unimplemented) for v in VERBS}
+    cls = Rec("$hclass", _impl=(APP, q), _name=q, SUPPORTED_METHODS=METHODS, _super_stubs={"__init_subclass__": _native(lambda **k: None), "_unimplemented_method": _unimplemented}, **attrs)
+    object.__setattr__(cls, "__name__", q)
+    object.__setattr__(cls, "__qualname__", q)
+    if hook is None:
+        return cls, marks, None
+    m, c, fn = hook
+    ctx.functions.add(f"{APP}::{c.name}.__init_subclass__")
+    if fn.decorator_list and [norm(d) for d in fn.decorator_list] != ["classmethod"]:
+        raise AnalysisError(f"{c.name}.__init_subclass__ is decorated (not modelled)")
+    ip.steps = 0
+    try:
+        ip.apply(Func(m, fn, bound=cls), [], {}, 0)
+    except Raised as r:
+        raise AnalysisError(f"{c.name}.__init_subclass__ raises {r.name} for class {q} in the modelled class creation")
+    return cls, marks, hook
+
+
+def plain_functions_only(fn_node):
+    """pyint binds nested functions without running their decorators: only decorators that keep the function are accepted"""
+    for n in ast.walk(fn_node):
+        if isinstance(n, (ast.FunctionDef, ast.AsyncFunctionDef)) and n is not fn_node:
+            for d in n.decorator_list:
+                if not (isinstance(d, ast.Call) and last_attr(d.func) == "wraps"):
+                    raise AnalysisError(f"{qual_of(fn_node)}: nested function {n.name} is decorated with {norm(d)} (not modelled)")
+
+
+def judge(world, outcome):
+    """reference for a request that carries no valid credential: [] or the list of broken clauses"""
+    out = []
+    if world.has("fn"):
+        out.append("reached")
+    if world.has("issue"):
+        out.append("cookie")
+    st = world.has("state")
+    if st:
+        out.append("state")
+    if outcome[0] != "raise" and world.status() != 403 and not world.has("fn"):
+        out.append("status")
+    return out
+
+
+REASONS = {
+    "reached": ("the {verb} handler runs without valid credentials", "the verb is reached although the request carries neither a valid session cookie nor the configured password / token"),
+    "cookie": ("a session cookie is issued without valid credentials", "the refused request is handed a signed session cookie: the next request is authenticated"),
+    "state": ("proxy state is touched without valid credentials", "the refusal path reads or changes application state ({what}): it is disclosed to / changed by unauthenticated clients"),
+    "status": ("a request without valid credentials is not answered with 403", "the refusal path ends without set_status(403) (status {status})"),
+}
+
+
+def attack_worlds(verb, good, session, full):
+    """request worlds; ``valid`` marks those that carry a credential the reference accepts"""
+    good = good if good is not None else "\x00no password is accepted"
+    if full:
+        headers = [None, "", "Bearer", "Bearer ", f"Bearer {WRONG}", f"Bearer {good}", f"Basic {good}", f"bearer {good}", WRONG, good]
+        tokens = [None, "", " ", WRONG, good]
+        jars = ["none", "session", "forged"]
+    else:
+        headers = [None, f"Bearer {WRONG}", f"Bearer {good}"]
+        tokens = [None, WRONG, good]
+        jars = ["none", "session", "forged"]
+    out = []
+    for jar in jars:
+        for h in headers:
+            for t in tokens:
+                if not full and sum(x is not None for x in (h, t)) + (jar != "none") > 1:
+                    continue
+                valid = jar == "session" or (h is not None and good in h) or (t is not None and good in t)
+                label = f"{verb.upper()} Authorization={h!r} token={t!r} cookies={jar}"
+                w = World(verb, header=h, token=t, signed=session if jar == "session" else None, forged=jar == "forged", valid=valid, label=label)
+                if jar == "session" and session is None:
+                    w.signed = None
+                out.append(w)
+    return out
+
+
+def login(sc, installed, q, verb):
+    """a valid token logs in: the verb runs and a session cookie is issued (positive control).
+    Returns (signed cookie jar of later requests | None, what is wrong with the control | None)."""
+    ip = sc.ip
+    w = World(verb, token=sc.good, valid=True)
+    out = ip.run(w, installed, [ip.handler(q, w, sc.app.settings)])
+    if not (w.has("fn") and out[0] == "return"):
+        return None, f"a request with the valid token does not reach the verb ({out[0]} {out[1]!r})"
+    issued = w.has("issue")
+    if len(issued) != 1:
+        return None, f"a successful login issues {len(issued)} signed cookies (exactly one session cookie is modelled)"
+    return {issued[0][1]: issued[0][2]}, None
+
+
+def run_worlds(ctx, sc, installed, q, verb, full, rule_for, where, seen, skip=(), generic=False):
+    """call the installed attribute in every world; findings for the credential-less ones, controls for the others.
+    Returns (number of worlds, kinds of broken clauses)."""
+    ip = sc.ip
+    session, problem = login(sc, installed, q, verb)
+    ok_by = {"session": 0, "header": 0, "token": 0}
+    n = 0
+    kinds: set = set()
+    for w in attack_worlds(verb, sc.good, session, full):
+        if w.signed is None:
+            continue  # no session cookie to present (the login control failed: reported below unless a clause is broken)
+        out = ip.run(w, installed, [ip.handler(q, w, sc.app.settings)])
+        n += 1
+        if w.valid:
+            if w.has("fn"):
+                if w.signed:
+                    ok_by["session"] += 1
+                if w.headers.get("Authorization") == f"Bearer {sc.good}":
+                    ok_by["header"] += 1
+                if w.args.get("token") == sc.good:
+                    ok_by["token"] += 1
             continue
-        anc = mro_names(ctx, q)
-        ctx.check(BASE in anc[1:], "R46.1", (APP, q, d), f"class {q}({', '.join(norm(b) for b in d.bases)})",
-                  f"tornado handler class {q} does not derive from {BASE}: its verbs are served without authentication",
-                  desc=f"class {q} derives from {BASE}")
-        mem = class_members(d)
-        for name in AUTH_MEMBERS:
+        for kind in judge(w, out):
+            kinds.add(kind)
+            construct, reason = REASONS[kind]
+            rule = rule_for(kind)
+            key = (rule, where[1], kind, "" if generic else verb)
+            if key in seen or kind in skip:
+                continue
+            seen.add(key)
+            what = ", ".join(sorted({e[1] for e in w.has("state")}))[:120]
+            ctx.fail(rule, where, construct.format(verb="wrapped" if generic else verb),
+                     reason.format(what=what, status=w.status()) + f" [{w.label}; {sc.label}]", world=w.label, scenario=sc.label, events=[list(map(str, e)) for e in w.events])
+    ctx.paths += n
+    if not kinds:
+        missing = [k for k, v in ok_by.items() if not v]
+        ctx.require(problem is None, f"{q}.{verb}: {problem} ({sc.label}; model broken or the UI is locked out)")
+        ctx.require(not missing, f"{q}.{verb}: valid credentials in {'/'.join(missing)} form never reach the verb ({sc.label}; model broken or the UI is locked out)")
+    return n, kinds
+
+
+def check_wrapping(ctx, classes, routed, base_scenarios, sc0):
+    """R46.2 (full world matrix on the wrapper each hook installs) and R46.1 (every class: its hook, its verbs, its own
+    get_current_user / auth_fail, reduced worlds).  Returns the function nodes that were interpreted."""
+    ip = sc0.ip
+    routed_classes = {t for _, t in routed}
+    hooks = {}
+    seen: set = set()
+    # -- R46.2: the wrapper every hook installs, on a class created under that hook, all verbs implemented
+    definers = []
+    for q in classes:
+        h = hook_of(ctx, q)
+        if h is not None and all(h[2] is not fn for _, _, fn, _ in definers):
+            definers.append((*h, q))
+    ctx.require(definers, f"{APP}: no handler class has an ancestor defining __init_subclass__ (nothing wraps the verbs)")
+    n_runs = 0
+    broken: dict = {}  # wrapper node -> kinds of clauses the full matrix found broken (not repeated per class)
+    k0 = len(ctx.findings)
+    for m, c, fn, sub in definers:
+        dq = getattr(c, "_qual", c.name)
+        ctx.require(m.rel == APP, f"__init_subclass__ hook outside {APP} (not modelled)")
+        for sc in base_scenarios:
+            cls, marks, _ = create_class(ctx, sc.ip, sub, list(VERBS))
+            for i, verb in enumerate(VERBS):
+                inst = cls.__dict__[verb]
+                if not isinstance(inst, Func):
+                    if (dq, verb) not in seen:
+                        seen.add((dq, verb))
+                        ctx.fail("R46.1", (APP, f"{dq}.__init_subclass__", fn), f"implemented verb {verb} is not replaced by an authenticating wrapper",
+                                 f"after {dq}.__init_subclass__ the class attribute {verb} is still {'the raw verb' if inst is marks[verb] else repr(inst)}: it is served without authentication")
+                    continue
+                wnode = inst.node
+                outer = wnode
+                while getattr(outer, "_parent", None) is not None and not isinstance(outer._parent, (ast.ClassDef, ast.Module)):
+                    outer = outer._parent
+                if isinstance(outer, (ast.FunctionDef, ast.AsyncFunctionDef)):
+                    plain_functions_only(outer)
+                ctx.functions.add(f"{inst.mod.rel}::{qual_of(wnode)}")
+                full = i == 0 or (i == 2 and sc is sc0)
+                n, kinds = run_worlds(ctx, sc, inst, sub, verb, full, lambda kind: "R46.2", (inst.mod.rel, qual_of(wnode), wnode), seen, generic=True)
+                n_runs += n
+                broken.setdefault(wnode, set()).update(kinds)
+    if len(ctx.findings) == k0:
+        ctx.ok("R46.2", f"installed wrapper: {n_runs} request worlds ({len(base_scenarios)} password configurations x Authorization headers x token arguments x "
+                        "cookie jars x 7 verbs): verb only with a valid credential, otherwise 403 / no cookie / no proxy state")
+    # -- R46.1: every class, its own hook, its own verbs / get_current_user / auth_fail
+    for q, d in classes.items():
+        verbs, ext = implemented_verbs(ctx, q)
+        cls, marks, hook = create_class(ctx, ip, q, verbs)
+        if hook is None:
+            if verbs and (q in routed_classes or not ext or any(v in members(d) for v in VERBS)):
+                ctx.fail("R46.1", (APP, q, d), f"class {q}({', '.join(norm(b) for b in d.bases)})",
+                         f"tornado handler class {q} implements {'/'.join(verbs) if not ext else 'HTTP verbs'} but no ancestor defines an __init_subclass__ hook: "
+                         "its verbs are served without authentication")
+            else:
+                ctx.ok("R46.1", f"class {q}: no hook needed (implements no verb, not routed)")
+            continue
+        hooks[q] = hook
+        bad = False
+        for verb in verbs:
+            inst = cls.__dict__[verb]
+            if not isinstance(inst, Func):
+                bad = True
+                ctx.fail("R46.1", (APP, q, d), f"{q}.{verb} is not replaced by an authenticating wrapper",
+                         f"after class creation {q}.{verb} is still {'the raw verb' if inst is marks[verb] else repr(inst)}: it is served without authentication")
+                continue
+            n, kinds = run_worlds(ctx, sc0, inst, q, verb, False, lambda kind: "R46.1" if kind == "reached" else "R46.2", (APP, q, d), seen, skip=broken.get(inst.node, ()))
+            bad = bad or bool(kinds)
+        if not bad:
+            ctx.ok("R46.1", f"class {q}: {'/'.join(verbs) if not ext else 'every verb (a tornado base may implement any)'} wrapped by {hook[1].name}.__init_subclass__ "
+                            "and refused without credentials")
+    for pattern, target in routed:
+        ctx.check(target in hooks, "R46.1", (APP, target, classes.get(target) or ctx.model.cls(APP, target)), f"route {pattern} -> {target}",
+                  f"routed handler {target} has no ancestor whose __init_subclass__ wraps its HTTP verbs with the authentication check",
+                  desc=f"route {pattern} -> {target} (hook {hooks[target][1].name}.__init_subclass__)" if target in hooks else "")
+    interpreted: set = set()
+    for sc in base_scenarios:
+        interpreted |= sc.ip.visited
+        for n, rel in sc.ip.visited_in.items():
+            if isinstance(n, (ast.FunctionDef, ast.AsyncFunctionDef)):
+                ctx.functions.add(f"{rel}::{qual_of(n)}")
+    for n in interpreted:
+        for dec in getattr(n, "decorator_list", []):
+            t = norm(dec)
+            if not (t in ("staticmethod", "classmethod", "property", "override", "typing.override", "abstractmethod", "abc.abstractmethod") or t.endswith(".setter")
+                    or (isinstance(dec, ast.Call) and last_attr(dec.func) == "wraps")):
+                raise AnalysisError(f"{qual_of(n)} is decorated with {t}: the interpreter does not apply decorators (not modelled)")
+    return interpreted
+
+
+def check_tornado_members(ctx, classes):
+    for q, d in classes.items():
+        mem = members(d)
+        for name in TORNADO_AUTH_MEMBERS:
             if name in mem:
                 ctx.fail("R46.1", (APP, q, mem[name]), f"{q}.{name} overrides the authentication machinery",
-                         f"subclass {q} defines {name}: the verbs of this class are no longer guaranteed to pass _require_auth / the signed-cookie check")
-    ctx.ok("R46.1", f"no subclass of {BASE} defines any of {', '.join(AUTH_MEMBERS)}")
-    # external bases must not shadow the machinery: they are tornado classes (trusted not to define these members)
+                         f"class {q} defines {name}: tornado's current_user / dispatch contract the wrapper relies on is replaced")
+    ctx.ok("R46.1", f"no handler class defines any of {', '.join(TORNADO_AUTH_MEMBERS)}")
     ctx.trust("tornado.web.RequestHandler / tornado.websocket.WebSocketHandler define no __init_subclass__, and only the default get_current_user (None)")
 
 
-def check_init_subclass(ctx):
-    fn = ctx.func(APP, f"{BASE}.__init_subclass__")
-    ctx.require(not fn.decorator_list, "__init_subclass__ is decorated (not modelled)")
-    cls = fn.args.args[0].arg if fn.args.args else None
-    ctx.require(cls is not None, "__init_subclass__ has no cls parameter")
-    body = stmts_of(fn)
-    loops = [s for s in body if isinstance(s, ast.For)]
-    ctx.require(len(loops) == 1 and attr_chain(loops[0].iter) == f"{cls}.SUPPORTED_METHODS" and isinstance(loops[0].target, ast.Name),
-                "__init_subclass__ is no longer one loop over cls.SUPPORTED_METHODS")
-    loop = loops[0]
-    for s in body:
-        if s is not loop and not (isinstance(s, ast.Expr) and isinstance(s.value, ast.Call) and norm(s.value.func).startswith("super()")):
-            raise AnalysisError(f"__init_subclass__: statement outside the loop is not modelled: {norm(s)}")
-    ctx.require(not loop.orelse, "__init_subclass__: for/else not modelled")
-    var = loop.target.id
-
-    def getattr_of(name_node):
-        """is ``name_node`` a Name bound (in the loop body) only from getattr(cls, <verb name>)?"""
-        if not isinstance(name_node, ast.Name):
-            return False
-        vals = [n.value for n in walk_in_order(loop) if isinstance(n, ast.Assign) and any(isinstance(t, ast.Name) and t.id == name_node.id for t in n.targets)]
-        return bool(vals) and all(
-            isinstance(v, ast.Call) and call_name(v) == "getattr" and len(v.args) == 2 and isinstance(v.args[0], ast.Name)
-            and v.args[0].id == cls and verb_name(v.args[1]) for v in vals)
-
-    def verb_name(node):
-        """the loop variable, possibly re-bound to / wrapped in .lower()"""
-        if isinstance(node, ast.Call) and isinstance(node.func, ast.Attribute) and node.func.attr == "lower" and not node.args:
-            node = node.func.value
-        if not isinstance(node, ast.Name):
-            return False
-        if node.id == var:
-            return True
-        vals = [n.value for n in walk_in_order(loop) if isinstance(n, ast.Assign) and any(isinstance(t, ast.Name) and t.id == node.id for t in n.targets)]
-        return bool(vals) and all(verb_name(v) for v in vals)
-
-    def wrapping(call):
-        if len(call.args) != 3 or call.keywords:
-            return False
-        a0, a1, a2 = call.args
-        if not (isinstance(a0, ast.Name) and a0.id == cls and verb_name(a1)):
-            return False
-        if not (isinstance(a2, ast.Call) and last_attr(a2.func) == "_require_auth" and len(a2.args) == 1):
-            return False
-        return getattr_of(a2.args[0])
-
-    class S(GenericSpec):
-
-        def events(self, node, st):
-            out = []
-            for n in eval_order(node):
-                if isinstance(n, ast.Call) and call_name(n) == "setattr":
-                    out.append(("setattr", wrapping(n)))
-            return out
-
-        def cond_event(self, expr, value, st):
-            if isinstance(expr, ast.Compare) and len(expr.ops) == 1 and isinstance(expr.ops[0], (ast.Is, ast.IsNot)):
-                sides = [expr.left, expr.comparators[0]]
-                um = [s for s in sides if attr_chain(s).endswith("._unimplemented_method")]
-                fnv = [s for s in sides if getattr_of(s)]
-                if len(um) == 1 and len(fnv) == 1:
-                    implemented = value if isinstance(expr.ops[0], ast.IsNot) else not value
-                    return ("implemented", implemented)
-            return ("cond", norm(expr), value)
-
-    eng = Engine(S(record_conds=True))
-    o = eng.block(loop.body, {State()}, 0)
-    ctx.paths += len(o.normal | o.cont | o.brk | o.ret | o.exc)
-    bad = []
-    for s in o.brk | o.ret | o.exc:
-        bad.append(("the loop can be left early, later verbs stay unwrapped", s.trace))
-    n_wrap = 0
-    for s in o.normal | o.cont:
-        tr = s.trace
-        if ("implemented", False) in tr:
-            continue
-        if ("setattr", True) in tr:
-            n_wrap += 1
-            continue
-        bad.append(("an implemented verb is not replaced by _require_auth(fn)", tr))
-    ctx.require(bad or n_wrap >= 1, "__init_subclass__: no path installs the wrapper (loop body shape not recognised)")
-    if bad:
-        why, tr = bad[0]
-        ctx.fail("R46.1", (APP, f"{BASE}.__init_subclass__", loop), "for method in cls.SUPPORTED_METHODS: setattr(cls, method, _require_auth(fn))",
-                 f"{why} on the path {list(tr)}", paths=[list(t) for _, t in bad])
-    else:
-        ctx.ok("R46.1", f"__init_subclass__: every implemented member of cls.SUPPORTED_METHODS is replaced by _require_auth(fn) ({len(o.normal | o.cont)} loop-body paths)")
-
-
-def check_no_late_rebinding(ctx, classes):
+def check_no_late_rebinding(ctx, classes, interpreted):
+    """no verb / auth member is re-bound after class creation, except by the functions the hooks were seen to run"""
     names = set(classes)
-    watched = set(VERBS) | set(AUTH_MEMBERS) | {"check_xsrf_cookie", "prepare", "SUPPORTED_METHODS"}
-    init_sub = ctx.model.func(APP, f"{BASE}.__init_subclass__")
+    private = {n.name for n in interpreted if isinstance(n, (ast.FunctionDef, ast.AsyncFunctionDef)) and n.name.startswith("_") and isinstance(getattr(n, "_parent", None), ast.ClassDef)}
+    watched = set(VERBS) | set(TORNADO_AUTH_MEMBERS) | private | {"__init_subclass__", "get_current_user", "auth_fail", "check_xsrf_cookie", "prepare", "SUPPORTED_METHODS"}
+
+    def inside_interpreted(node):
+        p = node
+        while p is not None:
+            if p in interpreted:
+                return True
+            p = getattr(p, "_parent", None)
+        return False
+
     for rel in (APP, MASTER, WA):
         tree = ctx.model.module(rel).tree
         for stmt, t in attribute_stores(tree, watched):
@@ -296,12 +1052,12 @@ def check_no_late_rebinding(ctx, classes):
             tail = root.rsplit(".", 1)[-1]
             if tail in names or root in ("self", "cls") and rel == APP:
                 ctx.fail("R46.1", (rel, "<module>", stmt), f"{norm(t)} = ...",
-                         f"{norm(t)} is (re)bound after class creation, bypassing the _require_auth wrapper installed by __init_subclass__")
+                         f"{norm(t)} is (re)bound after class creation, bypassing the wrapper installed by __init_subclass__")
         for c in walk_in_order(tree):
             if not (isinstance(c, ast.Call) and call_name(c) == "setattr" and len(c.args) >= 2):
                 continue
-            if rel == APP and any(a is c for a in walk_in_order(init_sub)):
-                continue
+            if rel == APP and inside_interpreted(c):
+                continue  # decided by interpretation (check_wrapping)
             root = attr_chain(c.args[0])
             tail = root.rsplit(".", 1)[-1] if root else ""
             if tail in names or root in ("self", "cls") or isinstance(c.args[0], ast.Call):
@@ -309,257 +1065,42 @@ def check_no_late_rebinding(ctx, classes):
                 if key is None or key in watched:
                     ctx.fail("R46.1", (rel, "<module>", c), norm(c), "setattr on a handler class / instance can replace a wrapped verb or the authentication machinery")
     ctx.ok("R46.1", "no verb / auth member of a handler class is re-bound after class creation (app.py, master.py, webaddons.py)")
-
-
-# ---------------------------------------------------------------------------------------------------
-# R46.2
-
-
-def is_password_check(expr) -> bool:
-    """self.settings['is_valid_password'](...)  (also via self.application.settings)"""
-    if not isinstance(expr, ast.Call) or not isinstance(expr.func, ast.Subscript):
-        return False
-    sub = expr.func
-    return attr_chain(sub.value) in ("self.settings", "self.application.settings") and isinstance(sub.slice, ast.Constant) and sub.slice.value == "is_valid_password"
-
-
-def check_wrapper(ctx):
-    ra = ctx.func(APP, f"{BASE}._require_auth")
-    ps = params_of(ra)
-    ctx.require(len(ps) == 1, "_require_auth no longer takes exactly the wrapped function")
-    fn_name = ps[0]
-    inner = [s for s in stmts_of(ra) if isinstance(s, (ast.FunctionDef, ast.AsyncFunctionDef))]
-    rets = [s for s in stmts_of(ra) if isinstance(s, ast.Return)]
-    ctx.require(len(inner) == 1 and len(rets) == 1 and isinstance(rets[0].value, ast.Name) and rets[0].value.id == inner[0].name
-                and len(stmts_of(ra)) == 2, "_require_auth is no longer `def wrapper...; return wrapper`")
-    w = inner[0]
-    ctx.functions.add(f"{APP}::{BASE}._require_auth.{w.name}")
-    for d in w.decorator_list:
-        ctx.require(norm(d) == f"functools.wraps({fn_name})", f"wrapper is decorated with {norm(d)} (not modelled)")
-    ctx.require(not isinstance(w, ast.AsyncFunctionDef), "wrapper became async (not modelled)")
-    ctx.require(fn_name not in [n.id for n in own_nodes(w) if isinstance(n, ast.Name) and isinstance(n.ctx, ast.Store)], "wrapper rebinds the wrapped function")
-
-    class S(GenericSpec):
-
-        def events(self, node, st):
-            out = []
-            for n in eval_order(node):
-                if isinstance(n, ast.Call):
-                    if isinstance(n.func, ast.Name) and n.func.id == fn_name:
-                        out.append(("fn",))
-                    elif last_attr(n.func) in ("set_status", "send_error") and attr_chain(n.func).startswith("self."):
-                        code = n.args[0].value if n.args and isinstance(n.args[0], ast.Constant) else (
-                            kwarg(n, "status_code").value if isinstance(kwarg(n, "status_code"), ast.Constant) else None)
-                        out.append(("status", code))
-                elif isinstance(n, ast.Name) and n.id == fn_name and isinstance(n.ctx, ast.Load):
-                    par = getattr(n, "_parent", None)
-                    if not (isinstance(par, ast.Call) and par.func is n):
-                        out.append(("fn-escapes", norm(par)))
-            return out
-
-        def cond_event(self, expr, value, st):
-            if attr_chain(expr) == "self.current_user":
-                return ("auth", "cookie", value)
-            if is_password_check(expr):
-                return ("auth", "password", value)
-            return None
-
-    trs, eng = traces_of(w, S(record_conds=True))
-    ctx.paths += len(trs)
-    ctx.require(any(("fn",) in t for t, _, _ in trs), "wrapper never calls the wrapped function (shape not recognised)")
-    ctx.require(any(e[0] == "auth" and e[1] == "password" for t, _, _ in trs for e in t) and any(e[0] == "auth" and e[1] == "cookie" for t, _, _ in trs for e in t),
-                "wrapper no longer tests self.current_user and self.settings['is_valid_password'](...) (shape not recognised)")
-    n_ok = n_deny = 0
-    for tr, how, _ in trs:
-        authed_at = next((i for i, e in enumerate(tr) if e[0] == "auth" and e[2] is True), None)
-        fn_at = next((i for i, e in enumerate(tr) if e[0] in ("fn", "fn-escapes")), None)
-        if fn_at is not None and (authed_at is None or authed_at > fn_at):
-            ctx.fail("R46.2", (APP, f"{BASE}._require_auth", w), "wrapper reaches fn(self, ...) without a successful credential check",
-                     f"path {list(tr)} calls the wrapped verb although neither self.current_user nor is_valid_password(password) was truthy", path=list(tr))
-            continue
-        if authed_at is None:
-            if ("status", 403) not in tr and not how.startswith("raise"):
-                ctx.fail("R46.2", (APP, f"{BASE}._require_auth", w), "unauthenticated path does not answer 403",
-                         f"path {list(tr)} ends ({how}) without set_status(403)", path=list(tr))
-                continue
-            n_deny += 1
-        else:
-            n_ok += 1
-    if not any(f.rule == "R46.2" and f.func.endswith("_require_auth") for f in ctx.findings):
-        ctx.ok("R46.2", f"_require_auth.wrapper: {len(trs)} paths, fn only after a truthy credential check ({n_ok}), 403 otherwise ({n_deny})")
-    ctx.require(n_deny >= 1 or any(f.rule == "R46.2" for f in ctx.findings), "wrapper has no denying path (shape not recognised)")
-
-
-def check_current_user(ctx, app_call):
-    fn = ctx.func(APP, f"{BASE}.get_current_user")
-    body = stmts_of(fn)
-    ctx.require(len(body) == 1 and isinstance(body[0], ast.Return) and isinstance(body[0].value, ast.Compare) and len(body[0].value.ops) == 1
-                and isinstance(body[0].value.ops[0], ast.Eq), f"get_current_user is no longer `return <cookie> == <constant>`: {norm(fn)}")
-    cmp_ = body[0].value
-    sides = [cmp_.left, cmp_.comparators[0]]
-    calls = [s for s in sides if isinstance(s, ast.Call)]
-    ctx.require(len(calls) == 1, "get_current_user: expected exactly one call among the compared operands")
-    getter = norm(calls[0].func)
-    if getter in ("self.get_signed_cookie", "self.get_secure_cookie"):
-        ctx.ok("R46.2", f"get_current_user reads the session through {getter} (signed)")
-    elif getter in ("self.get_cookie", "self.request.cookies.get", "self.cookies.get"):
-        ctx.fail("R46.2", (APP, f"{BASE}.get_current_user", fn), f"{getter}(...) == AUTH_COOKIE_VALUE",
-                 "the session cookie is read unsigned: any client can forge it and skip the password check")
-    else:
-        raise AnalysisError(f"get_current_user reads the cookie through {getter} (not modelled)")
-    other = [s for s in sides if s is not calls[0]][0]
-    if attr_chain(other) == "self.AUTH_COOKIE_VALUE":
-        mem = class_members(ctx.model.cls(APP, BASE))
-        ctx.require("AUTH_COOKIE_VALUE" in mem and isinstance(mem["AUTH_COOKIE_VALUE"], (ast.Assign, ast.AnnAssign)), "AUTH_COOKIE_VALUE vanished")
-        other = mem["AUTH_COOKIE_VALUE"].value
-    ctx.require(isinstance(other, ast.Constant), f"get_current_user compares with a non-constant: {norm(other)}")
-    ctx.check(isinstance(other.value, (bytes, str)) and len(other.value) > 0, "R46.2", (APP, f"{BASE}.get_current_user", fn),
-              f"AUTH_COOKIE_VALUE = {other.value!r}", "a missing cookie (None / empty) compares equal to the expected value: everyone is logged in",
-              desc=f"expected cookie value is the non-empty constant {other.value!r}")
-    sec = kwarg(app_call, "cookie_secret")
-    ctx.require(sec is not None, "Application no longer passes cookie_secret")
-    if isinstance(sec, ast.Constant):
-        ctx.fail("R46.2", (APP, "Application.__init__", sec), "cookie_secret=<constant>", "the cookie signing secret is a source constant: session cookies can be forged")
-    else:
-        ok = isinstance(sec, ast.Call) and call_name(sec) in RANDOM_SOURCES and sec.args and isinstance(sec.args[0], ast.Constant) and isinstance(sec.args[0].value, int)
-        ctx.require(ok, f"cookie_secret={norm(sec)} is not a recognised random source")
-        ctx.check(sec.args[0].value >= 16, "R46.2", (APP, "Application.__init__", sec), f"cookie_secret={norm(sec)}", "cookie signing secret shorter than 128 bit",
-                  desc=f"cookie_secret={norm(sec)}")
-
-
-def check_password_binding(ctx, app_call):
-    init = ctx.func(APP, "Application.__init__")
-    v = kwarg(app_call, "is_valid_password")
-    ctx.require(isinstance(v, ast.Attribute) and isinstance(v.value, ast.Name), f"Application: is_valid_password={norm(v) if v is not None else None} (not modelled)")
-    src = local_assignments(init, v.value.id)
-    ctx.require(len(src) == 1 and isinstance(src[0], ast.Call) and norm(src[0].func).endswith("addons.get") and src[0].args
-                and isinstance(src[0].args[0], ast.Constant), f"Application: {v.value.id} is not `master.addons.get(<name>)`")
-    addon_name = src[0].args[0].value
-    wa_cls = [d for q, d in ctx.model.module(WA).defs().items() if isinstance(d, ast.ClassDef) and q.lower() == addon_name]
-    ctx.require(len(wa_cls) == 1, f"{WA}: no class whose lower-cased name is {addon_name!r}")
-    wcls = wa_cls[0]
-    ctx.require("name" not in class_members(wcls, strict=False), f"{wcls.name} defines a custom addon name")
-    mt = ctx.model.module(MASTER)
-    added = [c for c in walk_in_order(mt.tree) if isinstance(c, ast.Call) and call_name(c) == f"webaddons.{wcls.name}"]
-    ctx.require(len(added) == 1, f"{MASTER}: WebMaster does not register webaddons.{wcls.name}() exactly once")
-    ok = v.attr == "is_valid_password" and "is_valid_password" in class_members(wcls, strict=False)
-    ctx.check(ok, "R46.2", (APP, "Application.__init__", v), f"is_valid_password={norm(v)}",
-              f"the password predicate handed to the handlers is not {wcls.name}.is_valid_password",
-              desc=f"settings['is_valid_password'] = {wcls.name}.is_valid_password (addon {addon_name!r} registered in WebMaster)")
-    return wcls
-
-
-def check_is_valid_password(ctx, wcls):
-    q = f"{wcls.name}.is_valid_password"
-    fn = ctx.func(WA, q)
-    ps = params_of(fn)
-    ctx.require(len(ps) == 2 and not fn.decorator_list, f"{q}: signature changed")
-    supplied = ps[1]
-    stored = "self._password"
-
-    def pair(a, b):
-        got = {attr_chain(a) or norm(a), attr_chain(b) or norm(b)}
-        return got == {stored, supplied}
-
-    n = 0
-    for r in [x for x in own_nodes(fn) if isinstance(x, ast.Return)]:
-        v = r.value
-        n += 1
-        if v is None or (isinstance(v, ast.Constant) and not v.value):
-            ctx.ok("R46.2", f"{q}: `{norm(r)}` denies")
-            continue
-        if isinstance(v, ast.Constant):
-            ctx.fail("R46.2", (WA, q, r), norm(r), "is_valid_password accepts without comparing the supplied password")
-            continue
-        if isinstance(v, ast.Call) and call_name(v) == "hmac.compare_digest" and len(v.args) == 2:
-            ctx.check(pair(*v.args), "R46.2", (WA, q, r), norm(r), "the comparison is not between the supplied and the configured password", desc=f"{q}: {norm(r)}")
-            continue
-        if isinstance(v, ast.Compare) and len(v.ops) == 1 and isinstance(v.ops[0], ast.Eq):
-            ctx.check(pair(v.left, v.comparators[0]), "R46.2", (WA, q, r), norm(r), "the comparison is not between the supplied and the configured password", desc=f"{q}: {norm(r)}")
-            continue
-        if isinstance(v, ast.Call) and call_name(v) == "self._hasher.verify" and len(v.args) == 2:
-            hs = [val for st, t in attribute_stores(wcls, {"_hasher"}) for val in [getattr(st, "value", None)]]
-            ctx.require(hs and all(isinstance(h, ast.Call) and call_name(h) == "argon2.PasswordHasher" for h in hs), f"{wcls.name}._hasher is not argon2.PasswordHasher()")
-            ok = attr_chain(v.args[0]) == stored and attr_chain(v.args[1]) == supplied
-            ctx.check(ok, "R46.2", (WA, q, r), norm(r), "argon2 verify is not called as verify(configured hash, supplied password)", desc=f"{q}: {norm(r)}")
-            continue
-        raise AnalysisError(f"{q}: return expression not modelled: {norm(r)}")
-    ctx.require(n >= 1, f"{q}: no return statement")
-    for nd in own_nodes(fn):
-        if isinstance(nd, (ast.Yield, ast.YieldFrom, ast.Await, ast.Lambda)):
-            raise AnalysisError(f"{q}: {norm(nd)} not modelled")
-    # the configured password is never empty (the wrapper validates "" when no credentials are supplied)
-    stores = attribute_stores(wcls, {"_password"})
-    ctx.require(stores, f"{wcls.name}: no assignment to self._password")
-    for st, t in stores:
-        ctx.require(isinstance(st, ast.Assign) and attr_chain(t) == stored, f"{wcls.name}: unmodelled write {norm(st)}")
-        val = st.value
-        last = val.values[-1] if isinstance(val, ast.BoolOp) and isinstance(val.op, ast.Or) else val
-        nonempty = isinstance(last, ast.Call) and call_name(last) in RANDOM_SOURCES and last.args and isinstance(last.args[0], ast.Constant) and last.args[0].value >= 8
-        if nonempty:
-            ctx.ok("R46.2", f"{wcls.name}: `{norm(st)}` is never empty")
-        elif attr_chain(val).endswith(".web_password") or (isinstance(val, ast.Constant) and not val.value):
-            ctx.fail("R46.2", (WA, qual(st), st), norm(st),
-                     "the configured password can be the empty string (the option's default), which the auth wrapper accepts for requests that carry no credentials at all")
-        else:
-            raise AnalysisError(f"{wcls.name}: cannot decide whether `{norm(st)}` can be empty")
     for rel in (APP, MASTER):
         for st, t in attribute_stores(ctx.model.module(rel).tree, {"_password", "_hasher"}):
-            raise AnalysisError(f"{rel}: writes {norm(t)} (not modelled)")
-
-
-def qual(node):
-    from ..model import qual_of
-
-    return qual_of(node)
-
-
-def check_auth_fail(ctx, classes):
-    n = 0
-    for q, d in classes.items():
-        if q == BASE:
-            continue
-        mem = class_members(d)
-        if "auth_fail" not in mem:
-            continue
-        fn = mem["auth_fail"]
-        ctx.require(isinstance(fn, ast.FunctionDef), f"{q}.auth_fail is not a plain method")
-        leaks = sorted({x.attr for x in ast.walk(fn) if isinstance(x, ast.Attribute) and x.attr in ("view", "master", "flow", "application", "json", "filecontents")}
-                       | {x.id for x in ast.walk(fn) if isinstance(x, ast.Name) and x.id in ("flow_to_json", "logentry_to_json")})
-        ctx.check(not leaks, "R46.2", (APP, f"{q}.auth_fail", fn), f"{q}.auth_fail uses {', '.join(leaks)}",
-                  "the 403 response body is computed from proxy state: unauthenticated clients can read or change it", desc=f"{q}.auth_fail touches no proxy state")
-        n += 1
-    base = ctx.func(APP, f"{BASE}.auth_fail")
-    ctx.require(not stmts_of(base), f"{BASE}.auth_fail is no longer empty")
-    return n
+            raise AnalysisError(f"{rel}: writes {norm(t)} (state of the auth addon written from outside; not modelled)")
 
 
 # ---------------------------------------------------------------------------------------------------
 # R46.3
 
 
-def check_xsrf_setting(ctx, classes, app_call):
-    x = kwarg(app_call, "xsrf_cookies")
-    if x is None or (isinstance(x, ast.Constant) and x.value is not True):
-        ctx.fail("R46.3", (APP, "Application.__init__", app_call), f"xsrf_cookies={norm(x) if x is not None else '<absent>'}",
-                 "tornado's XSRF token check is off: state-changing requests are accepted without a token")
-    else:
-        ctx.require(isinstance(x, ast.Constant), f"xsrf_cookies={norm(x)} is not a constant (cannot be decided)")
-        ctx.ok("R46.3", "Application(xsrf_cookies=True)")
+def check_xsrf_setting(ctx, classes, am):
+    where = (APP, f"{am.q}.__init__", ctx.model.method(APP, am.q, "__init__")[1])
+    x = am.settings.get("xsrf_cookies")
+    ctx.check(x is True, "R46.3", where, f"xsrf_cookies={x!r}" if "xsrf_cookies" in am.settings else "xsrf_cookies=<absent>",
+              "tornado's XSRF token check is off: state-changing requests are accepted without a token", desc="Application(xsrf_cookies=True)")
     for q, d in classes.items():
-        mem = class_members(d)
+        mem = members(d)
         if "check_xsrf_cookie" in mem:
             ctx.fail("R46.3", (APP, q, mem["check_xsrf_cookie"]), f"{q}.check_xsrf_cookie overridden", "the XSRF token check of this handler is replaced")
     ctx.ok("R46.3", f"none of the {len(classes)} handler classes overrides check_xsrf_cookie")
+    def interpreted(node):
+        p = node
+        while p is not None:
+            if p in am.constructed_by:
+                return True
+            p = getattr(p, "_parent", None)
+        return False
+
     for rel in (APP, MASTER, WA):
         for n in walk_in_order(ctx.model.module(rel).tree):
-            tgt = None
+            if isinstance(n, (ast.Assign, ast.Call)) and interpreted(n):
+                continue  # part of the interpreted construction: its effect is in the settings that were checked
             if isinstance(n, ast.Assign):
-                tgt = [t for t in n.targets if isinstance(t, ast.Subscript) and attr_chain(t.value).endswith("settings")]
-                for t in tgt:
+                for t in [t for t in n.targets if isinstance(t, ast.Subscript) and attr_chain(t.value).endswith("settings")]:
                     key = t.slice.value if isinstance(t.slice, ast.Constant) else None
                     if key is None or key in SENSITIVE_SETTINGS:
-                        ctx.fail("R46.3", (rel, qual(n), n), norm(n), "an application setting the authentication / XSRF machinery depends on is rewritten after construction")
+                        ctx.fail("R46.3", (rel, qual_of(n), n), norm(n), "an application setting the authentication / XSRF machinery depends on is rewritten after construction")
                 for t in n.targets:
                     if isinstance(t, ast.Attribute) and t.attr == "settings":
                         raise AnalysisError(f"{rel}: {norm(n)} replaces the settings dict (not modelled)")
@@ -567,104 +1108,97 @@ def check_xsrf_setting(ctx, classes, app_call):
                 raise AnalysisError(f"{rel}: {norm(n)} mutates the application settings (not modelled)")
 
 
-class PrepareSpec(GenericSpec):
-    """Evaluates RequestHandler.prepare for one (method, Sec-Fetch-Site) cell."""
+def check_gate(ctx, routed, sc):
+    """prepare(), as resolved for each routed class with a non-safe verb, refuses non-safe methods marked same-site / cross-site"""
+    ip = sc.ip
+    verdicts: dict = {}  # prepare node -> list of accepted (method, site) cells
 
-    record_conds = False
+    def table(q, node_key, fn):
+        if node_key in verdicts:
+            return verdicts[node_key]
+        bad = []
+        for verb in UNSAFE:
+            for site in ("cross-site", "same-site"):
+                w = World(verb, site=site)
+                out = ip.run(w, fn, [ip.handler(q, w, sc.app.settings)])
+                ctx.cells += 1
+                if out[0] != "raise":
+                    bad.append((verb.upper(), site))
+        w = World("post", site="same-origin")
+        out = ip.run(w, fn, [ip.handler(q, w, sc.app.settings)])
+        ctx.cells += 1
+        ctx.require(out[0] == "return", f"{qual_of(node_key)}: a same-origin POST does not pass ({out}; model broken or the UI is locked out)")
+        verdicts[node_key] = bad
+        return bad
 
-    def __init__(self):
-        super().__init__(keep=lambda ev: ev[0] in ("raise",))
-
-    @staticmethod
-    def _hdr(node):
-        return isinstance(node, ast.Constant) and isinstance(node.value, str) and node.value.lower() == "sec-fetch-site"
-
-    def value(self, expr, st, depth):
-        if attr_chain(expr) == "self.request.method":
-            return st.get("$method")
-        if isinstance(expr, ast.Subscript) and attr_chain(expr.value) == "self.request.headers" and self._hdr(expr.slice):
-            return st.get("$site")
-        if isinstance(expr, ast.Call) and call_name(expr) == "self.request.headers.get" and expr.args and self._hdr(expr.args[0]):
-            return st.get("$site")
-        return super().value(expr, st, depth)
-
-    def decide_extra(self, cond, st, depth):
-        if isinstance(cond, ast.Compare) and len(cond.ops) == 1 and isinstance(cond.ops[0], (ast.In, ast.NotIn)):
-            if self._hdr(cond.left) and attr_chain(cond.comparators[0]) == "self.request.headers":
-                return isinstance(cond.ops[0], ast.In)  # the cells evaluated here always carry the header
-        return None
-
-
-def check_prepare(ctx):
-    q = f"{GATE}.prepare"
-    fn = ctx.func(APP, q)
-    ctx.require(not fn.decorator_list and not isinstance(fn, ast.AsyncFunctionDef), f"{q}: decorated / async (not modelled)")
-    bad = []
-    for method in ("POST", "PUT", "DELETE", "PATCH"):
-        for site in ("cross-site", "same-site"):
-            trs, eng = traces_of(fn, PrepareSpec(), init_env={"$method": C(method), "$site": C(site)})
-            ctx.cells += 1
-            ctx.require(eng.forks == 0, f"{q}: a condition could not be decided for method={method}, Sec-Fetch-Site={site} (shape not modelled)")
-            if not trs or not all(how.startswith("raise") for _, how, _ in trs):
-                bad.append((method, site))
-    for method, site in bad:
-        ctx.fail("R46.3", (APP, q, fn), f"prepare accepts {method} with Sec-Fetch-Site: {site}",
-                 "a state-changing request the browser marks as not same-origin passes the Sec-Fetch-Site gate")
-    if not bad:
-        ctx.ok("R46.3", f"{q} raises for POST/PUT/DELETE/PATCH x Sec-Fetch-Site in (cross-site, same-site): 8 cells")
-    # positive control (keeps the evaluation non-vacuous): a same-origin POST passes
-    trs, eng = traces_of(fn, PrepareSpec(), init_env={"$method": C("POST"), "$site": C("same-origin")})
-    ctx.cells += 1
-    ctx.require(eng.forks == 0 and trs and all(how == "return" for _, how, _ in trs), f"{q}: evaluation does not let a same-origin POST pass (model broken or UI locked out)")
-
-
-def check_gate_coverage(ctx, routed):
-    for pattern, target, row in routed:
-        verbs = []
-        for _, c in ctx.model.mro(APP, target):
-            mem = class_members(c)
-            verbs += [v for v in UNSAFE if v in mem]
-        verbs = sorted(set(verbs))
+    for pattern, target in routed:
+        verbs, ext = implemented_verbs(ctx, target)
+        verbs = sorted(v for v in verbs if v in UNSAFE) if not ext else sorted({v for _, c in ctx.model.mro(APP, target) for v in UNSAFE if v in members(c)})
         if not verbs:
             ctx.ok("R46.3", f"route {pattern} -> {target}: no non-safe verb implemented in the repository classes")
             continue
-        owner, node = resolve_member(ctx, target, "prepare")
-        ctx.check(owner == GATE, "R46.3", (APP, target, row), f"{target} implements {'/'.join(verbs)} but prepare resolves to {owner or 'tornado'}",
-                  f"the Sec-Fetch-Site gate ({GATE}.prepare) does not run for the state-changing verbs of {target}",
-                  desc=f"route {pattern} -> {target}: {'/'.join(verbs)} behind {GATE}.prepare")
+        d = ctx.model.cls(APP, target)
+        r = ctx.model.method(APP, target, "prepare")
+        if r is None:
+            ctx.fail("R46.3", (APP, target, d), f"{target} implements {'/'.join(verbs)} but prepare resolves to tornado",
+                     f"no Sec-Fetch-Site gate runs for the state-changing verbs of {target}")
+            continue
+        m, fn = r
+        ctx.functions.add(f"{m.rel}::{qual_of(fn)}")
+        if fn.decorator_list:
+            raise AnalysisError(f"{qual_of(fn)} is decorated (not modelled)")
+        bad = table(target, fn, Func(m, fn))
+        if bad:
+            for method, site in bad:
+                ctx.fail("R46.3", (m.rel, qual_of(fn), fn), f"prepare accepts {method} with Sec-Fetch-Site: {site}",
+                         f"a state-changing request the browser marks as not same-origin passes the Sec-Fetch-Site gate ({qual_of(fn)}, which guards {target})")
+        else:
+            ctx.ok("R46.3", f"route {pattern} -> {target}: {'/'.join(verbs)} behind {qual_of(fn)}, which raises for POST/PUT/DELETE/PATCH x (cross-site, same-site)")
 
 
 # ---------------------------------------------------------------------------------------------------
 
 
 def check(ctx):
-    ctx.rule("R46.1", "every routed / tornado-derived handler class is a proper subclass of AuthRequestHandler, whose __init_subclass__ wraps every "
-             "implemented verb with _require_auth; nothing overrides or rebinds that machinery")
-    ctx.rule("R46.2", "_require_auth.wrapper calls the verb only after a truthy signed-cookie / password check and answers 403 otherwise; the password "
-             "predicate is WebAuth.is_valid_password, a real comparison against a never-empty configured password")
-    ctx.rule("R46.3", "xsrf_cookies=True, check_xsrf_cookie never overridden, RequestHandler.prepare rejects non-safe methods marked same-site / cross-site "
-             "and runs for every handler with a non-safe verb")
+    ctx.rule("R46.1", "every routed / tornado-derived handler class with a verb is created under an ancestor's __init_subclass__ hook that replaces every "
+             "implemented verb with an authenticating wrapper (decided by interpreting the hook per class); nothing overrides or rebinds that machinery")
+    ctx.rule("R46.2", "the installed wrapper reaches the verb only with a valid signed session cookie or a password accepted by the settings predicate and "
+             "otherwise answers 403 without cookie / proxy state (request-world matrix); the predicate is truthy only for the configured, never-empty secret")
+    ctx.rule("R46.3", "xsrf_cookies=True, check_xsrf_cookie never overridden, prepare() of every handler with a non-safe verb rejects non-safe methods marked "
+             "same-site / cross-site")
     classes = handler_classes(ctx)
-    routed, app_call = check_registry(ctx, classes)
-    check_hierarchy(ctx, classes)
-    check_init_subclass(ctx)
-    check_no_late_rebinding(ctx, classes)
-    check_wrapper(ctx)
-    check_current_user(ctx, app_call)
-    wcls = check_password_binding(ctx, app_call)
-    check_is_valid_password(ctx, wcls)
-    check_auth_fail(ctx, classes)
-    check_xsrf_setting(ctx, classes, app_call)
-    check_prepare(ctx)
-    check_gate_coverage(ctx, routed)
-    ctx.note(f"{len(routed)} routes, {len(classes)} handler classes (incl. {BASE})")
+    scenarios = [Scenario(ctx, SCENARIOS[0][1], SCENARIOS[0][0])]  # (no configure call: needs nothing but the application)
+    for label, steps in SCENARIOS[1:]:
+        sc = ctx.guard(Scenario, ctx, steps, label)
+        if sc is not None:
+            scenarios.append(sc)
+    base = [sc for sc in scenarios if len(sc.steps) == 1]
+    sc0 = base[1] if len(base) > 1 else base[0]  # the default deployment: web_password unset
+    am = sc0.app
+    routed = am.routes
+    for sc in scenarios:
+        ctx.require(sc.app.routes == routed, "the route table depends on the password configuration (not modelled)")
+    ctx.guard(check_registration, ctx, am)
+    ctx.guard(check_tornado_members, ctx, classes)
+    ctx.guard(check_predicate, ctx, scenarios)
+    ctx.guard(check_cookie_secret, ctx, sc0)
+    interpreted = ctx.guard(check_wrapping, ctx, classes, routed, base, sc0)
+    if interpreted is not None:
+        ctx.guard(check_no_late_rebinding, ctx, classes, interpreted)
+    ctx.guard(check_xsrf_setting, ctx, classes, am)
+    ctx.guard(check_gate, ctx, routed, sc0)
+    ctx.note(f"{len(routed)} routes, {len(classes)} handler classes")
+    ctx.bounds.append("R46.2: concrete request worlds - Authorization in {absent, '', 'Bearer', 'Bearer ', Bearer wrong, Bearer good, Basic good, bearer good, wrong, good} x "
+                      "token in {absent, '', blank, wrong, good} x cookies in {none, session issued by a login, forged unsigned} x 4 password configurations (full matrix on two "
+                      "verbs, reduced on the others and per class); predicate: 8 (re)configuration histories x 9-11 candidate passwords")
     ctx.assume("tornado serves files below static_path (bundled UI assets) without authentication; they carry no flow data")
     ctx.trust("tornado.web dispatch: verb = getattr(handler, request.method.lower()) for methods in SUPPORTED_METHODS; xsrf check for non GET/HEAD/OPTIONS "
-              "when settings['xsrf_cookies']; prepare() before the verb; RequestHandler.current_user caches get_current_user()")
-    ctx.trust("hmac.compare_digest, argon2.PasswordHasher.verify (raises on mismatch), secrets.token_*")
-    ctx.expect_instances("R46.1", 24 + 26 + 3)
-    ctx.expect_instances("R46.2", 11)
-    ctx.expect_instances("R46.3", 2 + 1 + 24)
+              "when settings['xsrf_cookies']; prepare() before the verb; RequestHandler.current_user caches get_current_user(); get_signed_cookie returns "
+              "only values signed with cookie_secret; class creation calls the nearest ancestor's __init_subclass__")
+    ctx.trust("hmac.compare_digest, hashlib, argon2.PasswordHasher.verify (raises on mismatch), secrets.token_* (modelled)")
+    ctx.expect_instances("R46.1", 24 + 27 + 2)  # routes, handler classes (26 under the hook + the class defining it), tornado members, rebinding
+    ctx.expect_instances("R46.2", 8 + 1 + 1)  # predicate scenarios, cookie secret, wrapper matrix
+    ctx.expect_instances("R46.3", 2 + 24)  # xsrf setting, no check_xsrf_cookie override, routes
 
 
 MUTANTS = [
@@ -674,19 +1208,24 @@ MUTANTS = [
     Mutant("init-subclass-wraps-get-only", APP, "if fn is not tornado.web.RequestHandler._unimplemented_method:",
            "if fn is not tornado.web.RequestHandler._unimplemented_method and method == \"get\":", "R46.1"),
     Mutant("subclass-overrides-get-current-user", APP, "    post = get  # login form\n", "    post = get  # login form\n\n    def get_current_user(self):\n        return True\n", "R46.1"),
+    Mutant("subclass-hook-without-super", APP, "class RequestHandler(AuthRequestHandler):\n    application: Application\n",
+           "class RequestHandler(AuthRequestHandler):\n    application: Application\n\n    def __init_subclass__(cls, **kwargs):\n        cls.json_api = True\n", "R46.1"),
     Mutant("verb-rebound-after-class-creation", APP, "\n\nhandlers = [", "\n\nFlows.get = lambda self: self.write([flow_to_json(f) for f in self.view])\n\nhandlers = [", "R46.1"),
     Mutant("wrapper-skips-check-without-password", APP, "if not self.settings[\"is_valid_password\"](password):",
            "if password and not self.settings[\"is_valid_password\"](password):", "R46.2"),
     Mutant("wrapper-falls-through-after-403", APP, "                    self.auth_fail(bool(password))\n                    return None\n",
            "                    self.auth_fail(bool(password))\n", "R46.2"),
     Mutant("wrapper-no-403", APP, "                    self.set_status(403)\n", "", "R46.2"),
+    Mutant("wrapper-accepts-any-bearer-scheme-prefix", APP, "if not self.current_user:", "if not (self.current_user or self.request.headers.get(\"Authorization\")):", "R46.2"),
     Mutant("unsigned-session-cookie", APP, "self.get_signed_cookie(self.settings[\"auth_cookie_name\"](), min_version=2)",
            "self.get_cookie(self.settings[\"auth_cookie_name\"]())", "R46.2"),
+    Mutant("missing-cookie-is-logged-in", APP, "AUTH_COOKIE_VALUE = b\"y\"", "AUTH_COOKIE_VALUE = None", "R46.2"),
     Mutant("constant-cookie-secret", APP, "cookie_secret=secrets.token_bytes(32),", "cookie_secret=b\"mitmproxy\",", "R46.2"),
     Mutant("verification-error-accepts", WA, "            except argon2.exceptions.VerificationError:\n                return False",
            "            except argon2.exceptions.VerificationError:\n                return True", "R46.2"),
     Mutant("configured-password-may-be-empty", WA, "self._password = ctx.options.web_password or secrets.token_hex(16)", "self._password = ctx.options.web_password", "R46.2"),
     Mutant("compare-with-wrong-operand", WA, "                self._password,\n                password,\n            )", "                password,\n                password,\n            )", "R46.2"),
+    Mutant("pass-the-hash", WA, "        if self._password.startswith(\"$\"):\n            try:", "        if self._password.startswith(\"$\") and password != self._password:\n            try:", "R46.2"),
     Mutant("login-page-leaks-flows", APP, "        self.render(\"login.html\", invalid_password=invalid_password)",
            "        self.render(\"login.html\", invalid_password=invalid_password, flows=len(self.view))", "R46.2"),
     Mutant("xsrf-off", APP, "xsrf_cookies=True,", "xsrf_cookies=False,", "R46.3"),
